@@ -89,7 +89,7 @@ impl Check for C15 {
         "C15"
     }
     fn rule(&self) -> String {
-        "1-5 atoms of every kind/polarity/CaseMatching/Normalization built through Atom::new (texts = substrings / subsequences of the haystack, case variants, or independent), haystacks from small palettes (ASCII and non-ASCII), all matcher configs; each atom is evaluated alone on a fresh matcher directly through the matcher functions and the results are composed by the stated rule (conjunction, negation, sum, index concatenation, prior content kept); Pattern::score / Pattern::indices / permuted atom order on a shared matcher / Atom::score / match_list on 0-84 items drawn from at most five distinct strings (many score ties; stable descending sort) / MultiPattern over 1-3 columns compared, after 0-3 earlier reparse steps on the same object (columns set and cleared again), together with is_empty(). 6% of the cases use a line of 700-1900 chars with atoms that are long pieces of it (pattern totals above 65535); ten such cases are fixed templates. Non-trivial: >= 2 atoms with a negative one or two different case/normalization settings, on a haystack at least one atom matches. Distinct by case hash.".into()
+        "1-5 atoms of every kind/polarity/CaseMatching/Normalization built through Atom::new (texts = substrings / subsequences of the haystack, case variants, or independent), haystacks from small palettes (ASCII and non-ASCII), all matcher configs; each atom is evaluated alone on a fresh matcher directly through the matcher functions and the results are composed by the stated rule (conjunction, negation, sum, index concatenation, prior content kept); Pattern::score / Pattern::indices / permuted atom order on a shared matcher / Atom::score / Pattern::clone_from onto a pattern with other settings at the same atom positions and Atom::clone_from / match_list on 0-84 items drawn from at most five distinct strings (many score ties; stable descending sort; a quarter of the lists contain items with CR LF inside) / MultiPattern over 1-3 columns compared, after 0-3 earlier reparse steps on the same object (columns set and cleared again), together with is_empty(). 6% of the cases use a line of 700-1900 chars with atoms that are long pieces of it (pattern totals above 65535); ten such cases are fixed templates. Non-trivial: >= 2 atoms with a negative one or two different case/normalization settings, on a haystack at least one atom matches. Distinct by case hash.".into()
     }
     fn assumptions(&self) -> Vec<String> {
         vec!["per-atom match decisions and scores are C01-C05's business; here only the composition is judged".into()]
@@ -167,6 +167,18 @@ impl Check for C15 {
                 let mut rev: Vec<char> = hay.clone();
                 rev.reverse();
                 bases.push(rev.into_iter().collect());
+                // all-ASCII (and other) items with a Windows line break inside
+                if items_raw.len() % 4 == 1 {
+                    let mut b: Vec<char> = hay.clone();
+                    let at = b.len() / 2;
+                    b.splice(at..at, ['\r', '\n']);
+                    bases.push(b.into_iter().collect());
+                    let k = bases.len() - 2;
+                    let mut c: Vec<char> = bases[0].chars().collect();
+                    let at = c.len().min(1);
+                    c.splice(at..at, ['\r', '\n']);
+                    bases[k] = c.into_iter().collect();
+                }
                 let long = items_raw.len() % 3 == 0;
                 let reps = if long { 7 } else { 1 };
                 let mut items: Vec<String> = vec![];
@@ -229,6 +241,36 @@ impl Check for C15 {
                     }
                 }
                 (e, g) => fails.push(("pattern-indices-decision".into(), format!("Pattern::indices = {g:?}, expected {:?}; {ctx}", e.as_ref().map(|e| e.0)))),
+            }
+            // clone_from onto a pattern whose atoms have the same texts but other settings at the same positions
+            {
+                let mut old = Pattern::default();
+                old.atoms = case
+                    .atoms
+                    .iter()
+                    .skip(case.perm[0] as usize % 2)
+                    .map(|s| {
+                        let mut t = s.clone();
+                        t.case = (t.case + 1) % 3;
+                        t.norm = 1 - t.norm % 2;
+                        t.negative = !t.negative;
+                        build_atom(&t)
+                    })
+                    .filter(|a| !a.needle_text().is_empty())
+                    .collect();
+                old.clone_from(&pattern);
+                let got_c = old.score(hay, &mut shared);
+                if old.atoms != pattern.atoms || got_c != exp.as_ref().map(|e| e.0) {
+                    fails.push(("clone-from".into(), format!("a pattern overwritten by Pattern::clone_from differs from its source: atoms {:?} vs {:?}, score {got_c:?} vs {:?}; {ctx}", old.atoms, pattern.atoms, exp.as_ref().map(|e| e.0))));
+                }
+                if let (Some(src), Some(other)) = (atoms.first(), atoms.last()) {
+                    let mut a = other.clone();
+                    a.clone_from(src);
+                    let b = src.clone();
+                    if a != *src || b != *src || a.score(hay, &mut shared) != src.score(hay, &mut shared) {
+                        fails.push(("clone-from".into(), format!("Atom::clone / clone_from: {a:?} / {b:?} differ from the source {src:?}; {ctx}")));
+                    }
+                }
             }
             // permuted evaluation order on the shared matcher
             let mut permuted = atoms.clone();
